@@ -45,9 +45,46 @@ PROPS = {
         "theorems": [
             "HqModel.C04.c04_inv",
             "HqModel.C04.c04_exclusive",
+            "HqModel.C04.c04_exact",
+            "HqModel.C04.c04_release",
+            "HqModel.C04.c04_concise",
         ],
         "parts": [dict(_PART, clauses=["c04."], tags=["pool", "concise", "alloc", "res"])],
-        "assumptions": _COMMON_ASSUMPTIONS,
+        "assumptions": _COMMON_ASSUMPTIONS + [
+            "c04_release and c04_concise carry the side condition NoSingletonGroups (no `Groups` pool with exactly one group; "
+            "ResourceDescriptorKind::groups() normalises that to a List). c04_inv, c04_exclusive, c04_exact do not.",
+            "c04_handover (prefill_loop hands an allocation to the next task only after taskEnd) belongs to component "
+            "`worker` (M2) and is not part of this component.",
+        ],
+        "trusted_base": _TRUSTED,
+    },
+    "C16": {
+        "module": "HqModel.Props.C16",
+        "theorems": [
+            "HqModel.C16.c16_grant_agrees_partial",
+            "HqModel.C16.c16_claim_nostop_partial",
+            "HqModel.C16.c16_single_fraction",
+            "HqModel.C16.c16_admit_iff",
+            "HqModel.C16.c16_admit_iff_partial",
+            "HqModel.C16.c16_all_partial",
+            "HqModel.C16.c16_scatter_partial",
+            "HqModel.C16.c16_min_groups_partial",
+            "HqModel.C16.c16_strict_partial",
+        ],
+        "parts": [dict(_PART, clauses=["c16."], tags=["enabled", "res", "alloc"])],
+        "assumptions": _COMMON_ASSUMPTIONS + [
+            "c16_grant_agrees_partial assumes solver determinism explicitly (hypothesis hdet: for a request with a strict entry "
+            "the solver reports the same objective value for the identical MILP in is_enabled and in try_allocate); HiGHS may "
+            "return any incumbent within mip_rel_gap=1e-4, so optimality of the recorded answer alone does not give this.",
+            "The policy theorems that are `_partial` state their missing parts in their doc comments: c16_admit_iff_partial "
+            "(any state, fraction values < 1 unit as hypothesis; the full c16_admit_iff discharges it for reachable states under "
+            "NoSingletonGroups), c16_all (all indices free at admission not formalised), "
+            "c16_scatter (only the case 'every group non-empty, whole amount <= #groups'), c16_min_groups / c16_strict (bounds "
+            "as hypotheses on the tie-break terms; uncoupled single entry; strict: only 'admitted => no more groups than on the "
+            "empty worker'). The converse of c16_strict is false for the code: KNOWN_FINDINGS F24.",
+            "Scatter spread, min-group count, strict admission and `all` are additionally checked on every generated grant by "
+            "harness monitors against brute-force references (c16.scatter, c16.min-groups, c16.strict, c16.all, c16.admit).",
+        ],
         "trusted_base": _TRUSTED,
     },
 }
